@@ -149,6 +149,11 @@ class Ctx:
                 work.append(c)
         return out
 
+    def hosts_of(self, n: Node) -> Set[str]:
+        """On whose behalf does this step run?  A step of a helper spliced into a function runs on behalf of that function's
+        hosts (this instance of it), not of every caller the helper has."""
+        return self.hosts(n.root if n.root is not None and n.root is not n.func else n.func)
+
     # ----------------------------------------------------------------- effects
     def effects(self, fields: Optional[Sequence[str]] = None, kinds: Optional[Sequence[str]] = None,
                 funcs: Optional[Iterable[FuncInfo]] = None, exact_paths: Optional[Sequence[str]] = None) -> List[Effect]:
@@ -406,13 +411,19 @@ class Ctx:
             fn = n.func
 
             def reg_of(e: Optional[ast.AST]) -> Optional[str]:
-                p = self.eff.paths(fn).of(e)
+                p = self.path_at(n, e)
                 if p is None:
                     return None
                 return regs.get(field_of(p)) if p.count(".") == 1 and "[" not in p else None
 
             def is_id(e: ast.AST) -> bool:
-                return isinstance(e, ast.Name) and e.id == idp
+                if not isinstance(e, ast.Name):
+                    return False
+                if n.env is None:
+                    return e.id == idp
+                # inside a spliced helper: the parameter stands for what the caller passed
+                fr, fenv, leaf = self.vals.trace(n.func, n.env, e)
+                return fenv is None and fr is n.root and isinstance(leaf, ast.Name) and leaf.id == idp
 
             return [(idp, r) for r in step(n, lab, st, reg_of, is_id)]
 
